@@ -80,7 +80,8 @@ def gen_unit(rng):
     if rng.random() < 0.3:
         u["skip"] = rng.randint(0, 4)
     if rng.random() < 0.35:
-        u["take"] = rng.choice((0, 1, 2, 3, 5, 8))
+        # (also the natural spellings of "no limit": the window is rows S.. of the result, wherever S + T lies)
+        u["take"] = rng.choice((0, 1, 2, 3, 5, 8, 8, 2 ** 64 - 1, 2 ** 64 - 2, 2 ** 63))
     r = rng.random()
     if r < 0.2:
         u["group"] = ("path", 0, (("k", rng.choice(("s", "u"))),)) if cur.dot == "rec" and rng.random() < 0.6 else g.gen("str", cur)
